@@ -82,6 +82,19 @@ def seed_matrix():
     return "\n".join(rows)
 
 tmpl = open(os.path.join(V, "tools", "design11.tmpl.md")).read()
+def counts():
+    n = 0
+    for pid in props.READY:
+        pth = os.path.join(V, "evidence", pid + ".json")
+        if os.path.exists(pth):
+            n += len(find(json.load(open(pth)), "theorems") or [])
+    files = glob.glob(os.path.join(V, "coq", "theories", "*.v")) + glob.glob(os.path.join(V, "coq", "theories", "Properties", "*.v"))
+    lines = sum(len(open(f, errors="replace").read().splitlines()) for f in files)
+    return n, lines, len(files)
+
+NT, NL, NF = counts()
+tmpl = open(os.path.join(V, "tools", "design11.tmpl.md")).read()
+tmpl = tmpl.replace("<<NTHEOREMS>>", str(NT)).replace("<<NLINES>>", str(NL)).replace("<<NFILES>>", str(NF))
 body = tmpl.replace("<<STATUS_TABLE>>", status_table()).replace("<<FINDINGS_TABLE>>", findings_table()).replace("<<SEED_MATRIX>>", seed_matrix())
 B, E = "<!-- BUILD-REPORT-BEGIN -->", "<!-- BUILD-REPORT-END -->"
 dp = os.path.join(V, "DESIGN.md")
